@@ -18,12 +18,29 @@ P = {
          "mergeValues recurses only when both sides are sub-configs; nested merges receive the caller's options. Value-level laws are not decided.",
          TRUST + "A re-implementation of a strategy that no longer goes through fields.append/setAt is reported as undecided, not as a violation.",
          "§3 C01"),
- "C02": (False, "", "", "", "§3 C02"),
+ "C02": (True,
+         "call-graph reachability + dominance + type-based store rule + error-discipline path rule (custom analyzer)",
+         "Decides the structural clauses of late-bound expansion: no cpy implementation can reach an evaluation function (references survive Merge "
+         "unresolved and are evaluated at read time), ${} parsing happens only under VarExp, expression objects are never written after construction, "
+         "resolveEnv reports success only after a resolver succeeded (an unresolvable reference is an error, never an empty value), and the lookup "
+         "order tree root -> Env last-to-first -> resolvers last-to-first is the one coded. Operator semantics, escapes and typed results are value-level "
+         "and not decided.",
+         TRUST,
+         "§3 C02"),
  "C03": (False, "", "", "", "§3 C03"),
  "C04": (False, "", "", "", "§3 C04"),
  "C06": (False, "", "", "", "§3 C06"),
  "C07": (False, "", "", "", "§3 C07"),
- "C08": (False, "", "", "", "§3 C08"),
+ "C08": (True,
+         "who-may-call / SCC rules on the VTA call graph + scope pairing and dominance rules on SSA (custom analyzer)",
+         "Decides termination of the reference-evaluation recursion and absence of false cycles from sibling reuse for ALL reference graphs: inside the "
+         "evaluation closure only resolveRef performs tree lookups; its guard (AddNew on the current set, parent chain consulted) dominates the lookup "
+         "and its failing edge returns the cyclic error; no makeOptions caller is recursive (the guard is never reset inside a recursion); guard scopes "
+         "are paired, text-level evaluators resolve inside a scope that covers the consumption of the value, and every child loop that can reach "
+         "resolveRef opens a fresh child scope per iteration; live sub-configs are never cached; the guard chain is never cut; an unresolved reference "
+         "is never a success. Does not decide that non-cyclic graphs produce the right text.",
+         TRUST + "Cut at parseValue (text produced by an evaluation is normalized into a fresh tree). Merge/normalize loops are outside C08's read entry points.",
+         "§3 C08"),
  "C09": (False, "", "", "", "§3 C09"),
  "C10": (True,
          "interprocedural ownership / mod-and-flow analysis on SSA (E1, custom; summaries to fixpoint over the VTA call graph)",
